@@ -225,7 +225,7 @@ STR_METHODS = {"upper", "lower", "startswith", "endswith", "count", "strip", "ls
                "removeprefix", "partition", "rpartition", "zfill", "format", "isspace", "splitlines", "encode"}
 TYPES = {"str": str, "dict": dict, "list": list, "tuple": tuple, "int": int, "float": float, "bool": bool,
          "set": set}
-PY_EXC = {"ValueError": ValueError, "KeyError": KeyError, "IndexError": IndexError, "TypeError": TypeError,
+PY_EXC = {"UnboundLocalError": UnboundLocalError, "NameError": NameError, "ValueError": ValueError, "KeyError": KeyError, "IndexError": IndexError, "TypeError": TypeError,
           "AttributeError": AttributeError, "Exception": Exception}
 _SELF = object()
 
@@ -679,11 +679,31 @@ class Interp:
             raise LexUnknown("str() of a container holding input words")
         return str(x)
 
+    def _is_local(self, id_):
+        """is id_ assigned somewhere in the function being evaluated (then reading it unassigned is UnboundLocalError)"""
+        f = self.cur_func
+        if f is None:
+            return False
+        cache = self.__dict__.setdefault("_locals_cache", {})
+        if f.id not in cache:
+            names = set()
+            for n in ast.walk(f.node):
+                if isinstance(n, ast.Name) and isinstance(n.ctx, (ast.Store, ast.Del)):
+                    names.add(n.id)
+                elif isinstance(n, ast.arg):
+                    names.add(n.arg)
+                elif isinstance(n, (ast.Global, ast.Nonlocal)):
+                    names -= set(n.names)
+            cache[f.id] = names
+        return id_ in cache[f.id]
+
     def name(self, id_, env):
         if id_ in env:
             return env[id_]
         if id_ == "self":
             return _SELF
+        if self._is_local(id_):
+            raise PyRaise(UnboundLocalError(f"cannot access local variable '{id_}' where it is not associated with a value"))
         if id_ in TYPES:
             return ("type", TYPES[id_])
         if id_ in PY_EXC:
